@@ -4,7 +4,8 @@ Plain pytest replay of violation artefacts, with no explorer involved.
   cd /verif && /venv/bin/python -m pytest -q tests/test_replays.py
 
 Every JSON file under /verif/replays (written by a failing check, or by a check
-that met a known finding) names a property, a kind and one case.  The test
+that met a known finding), under /verif/regressions (artefacts of defects that
+were repaired by a "fix:" commit) and next to each seeded change names a property, a kind and one case.  The test
 imports the property's check module, runs that single case on the real code
 twice and asserts that (a) the two runs observe the same thing (the harness is
 deterministic) and (b) artefacts of *known findings* still reproduce.  For any
@@ -22,6 +23,7 @@ from mc.exact import from_json   # noqa: E402
 
 runner.bind_repo()
 ARTEFACTS = sorted(glob.glob(os.path.join(VERIF, "replays", "*.json")) +
+                   glob.glob(os.path.join(VERIF, "regressions", "*.json")) +
                    glob.glob(os.path.join(VERIF, "seeded", "*", "replay-*.json")))
 
 
